@@ -577,3 +577,7 @@ mod tests {
         assert_eq!(AesSivCmac512::try_from(slice).unwrap().key_bytes(), slice);
     }
 }
+
+#[cfg(feature = "pendulum_project_ntpd_rs_verif")]
+#[path = "/verif/hooks/ntp-proto/packet_crypto.rs"]
+pub mod verif_hooks;
